@@ -580,11 +580,17 @@ def transRefs (fixed : Bool) (orig names : Str) : Res (List Str × Str) :=
     if fixed ∧ 11 < (n :: ns).length then .diag (lit "Too many names (max. 11) in: " ++ orig)
     else .ok (n :: ns, join ((n :: ns).map fun _ => lit "$REF"))
 
-/-- `stripMetric`: `tokens[:5]` is taken only if `len(tokens) == 6`. -/
+/-- `stripMetric`: `if len(tokens) == 6 && tokens[2] != "vrf" { tokens[:5] }` (upstream 3341f0d: the IOS form
+`ipv6 route vrf NAME destination next_hop` has six words without a metric). -/
 def stripMetric (parsed : Str) : Res Str :=
   let tokens := splitSp parsed
   if tokens.length = 6 then
-    (if 5 ≤ tokens.length then .ok (join (tokens.take 5)) else .panic (.slice "tokens[:5]"))
+    match tokens[2]? with
+    | none => .panic (.index "tokens[2]")
+    | some t2 =>
+      if t2 ≠ lit "vrf" then
+        (if 5 ≤ tokens.length then .ok (join (tokens.take 5)) else .panic (.slice "tokens[:5]"))
+      else .ok parsed
   else .ok parsed
 
 /-! ### dstOfRoute, routeVRF (cisco/diff.go) -/
